@@ -108,6 +108,11 @@ let fuel = let rec mk n = if n = 0 then O else S (mk (n-1)) in mk 64
 
 let cid_of (s:string) = (s.[0] = 'M', n_of_dec (String.sub s 1 (String.length s - 1)))
 
+(* first word of an answer: "ok" iff the value lies in the domain of the C01/C02 theorems
+   (wfvb, proved sound for Wf.wfv); "toobig" when a TLV's size does not fit 16 bits;
+   "notwf" for any other reason *)
+let status v = if wfvb llrp_table v then "ok " else if fits llrp_table v then "notwf " else "toobig "
+
 let handle (line:string) : string =
   let line = String.trim line in
   if line = "" then "" else
@@ -120,7 +125,7 @@ let handle (line:string) : string =
       let (v, _) = parse_value (tokenize rest) in
       (match encode llrp_table v with
        | None -> "err"
-       | Some bs -> (if fits llrp_table v then "ok " else "toobig ") ^ hex_of_bytes bs)
+       | Some bs -> (status v) ^ hex_of_bytes bs)
     | "dec" ->
       let sp2 = String.index rest ' ' in
       let (msg, tid) = cid_of (String.sub rest 0 sp2) in
@@ -137,7 +142,7 @@ let handle (line:string) : string =
           | Some v2 ->
             (match encode llrp_table v2 with
              | None -> "err reencode"
-             | Some bs2 -> (if fits llrp_table v then "ok " else "toobig ") ^ hex_of_bytes bs ^ " " ^ tree_string v2 ^ " " ^ hex_of_bytes bs2))
+             | Some bs2 -> (status v) ^ hex_of_bytes bs ^ " " ^ tree_string v2 ^ " " ^ hex_of_bytes bs2))
        | _, _ -> "err")
     | _ -> "error bad request"
   with Parse m -> "error parse " ^ m | Not_found -> "error bad request" | Failure m -> "error " ^ m | Invalid_argument m -> "error " ^ m
